@@ -25,7 +25,8 @@ from translate import io_spec
 
 PROP = "C06"
 LEAN_MODULE = "TopSearch.Props.C06"
-LEAN_FILES = ["TopSearch.Props.C06", "TopSearch.Lemmas.IO", "TopSearch.Model.IO", "TopSearch.Model.Ktn"]
+LEAN_FILES = ["TopSearch.Props.C06", "TopSearch.Lemmas.IO", "TopSearch.Model.IO", "TopSearch.Gen.IOSpec",
+              "TopSearch.Model.Ktn", "TopSearch.Lemmas.Ktn"]
 EXTRA_TARGETS = ["TopSearch.Gen.IOSpec", "TopSearch.Model.IO"]
 REQUIRED = [
     "TopSearch.Props.C06.C06_bridge_spec",
